@@ -63,6 +63,8 @@ def model_apply(net, op):
                     nodes[n][1].remove(op[1])
     elif k == "add":
         nodes[op[1]] = [op[2], [f for f in op[3] if f in nodes], False]
+        if len(op) > 4 and op[4] in nodes and op[1] not in nodes[op[4]][1]:
+            nodes[op[4]][1].append(op[1])
     elif k == "remove_unloaded":
         for n in expected_removed(net, op[1]):
             del nodes[n]
@@ -71,7 +73,7 @@ def model_apply(net, op):
 def gen(rng, tier):
     bbs = rng.choice((0, 0, 1, 2))
     net = G.gen_net(rng, n_inputs=(1, 5), n_gates=(2, 12), types=G.swarm_types(rng), max_arity=3,
-                    constants=0.3, bbs=bbs, unconnected_pins=0.2 if bbs else 0.0, min_outputs=1)
+                    constants=0.3, bbs=bbs, unconnected_pins=0.2 if bbs else 0.0, min_outputs=1, shuffle_order=0.5)
     model = copy.deepcopy(net)
     ops = []
     cnt = 0
@@ -116,6 +118,10 @@ def gen(rng, tier):
             else:
                 fi = rng.sample(drivers, rng.randint(1, min(3, len(drivers))))
             op = ["add", name, t, fi]
+            sinks = [n for n in names if nodes[n][0] in ref.MULTI]
+            if sinks and t not in ("input", "0", "1", "x") and rng.random() < 0.35:
+                # a driver created AFTER its load: add(name, t, fanin=..., fanout=[existing gate])
+                op = ["add", name, t, fi, rng.choice(sinks)]
         if op is None:
             continue
         ops.append(op)
@@ -145,7 +151,8 @@ def run(case, ctx):
                 elif k == "remove":
                     c.remove(op[1])
                 elif k == "add":
-                    c.add(op[1], op[2], fanin=[f for f in op[3] if f in c])
+                    c.add(op[1], op[2], fanin=[f for f in op[3] if f in c],
+                          fanout=[op[4]] if len(op) > 4 and op[4] in c else None)
                 ctx.log(step, k, "ok")
             except Exception as e:   # edits are workload, not the subject: a failed edit is skipped
                 ctx.log(step, k, type(e).__name__)
